@@ -260,7 +260,50 @@ def check_case(ctx, c):
     ctx.sample(key)
 
 
+def hub_case(ctx):
+    """a long strictly convex series: every pair of samples sees each other,
+    so node i has i past and N-1-i future neighbours, all mutually linked
+    (degrees above 181 make k(k-1) exceed 16 bits)"""
+    from pyunicorn.timeseries.visibility_graph import VisibilityGraph
+    N = 200
+    x = np.arange(N, dtype=float) ** 2
+    ctx.evaluations += 1
+    ctx.stat("convex ramp N=200")
+    key = {"x": "i**2 for i in range(200)", "n": N}
+    with warnings.catch_warnings():
+        warnings.simplefilter("ignore")
+        g = VisibilityGraph(x, silence_level=3)
+        A = np.asarray(g.adjacency).astype(int)
+        if not np.array_equal(A, 1 - np.eye(N, dtype=int)):
+            ctx.violation("VisibilityGraph.adjacency",
+                          "a strictly convex series is not a complete graph",
+                          key, {"hub": True})
+            return
+        i = np.arange(N)
+        for nm, want in (("retarded_degree", i), ("advanced_degree",
+                                                 N - 1 - i)):
+            got = np.asarray(getattr(g, nm)(), float)
+            if not np.array_equal(got, want.astype(float)):
+                ctx.violation(f"VisibilityGraph.{nm}",
+                              "differs from the number of past / future "
+                              "neighbours", dict(key, got=got.tolist()),
+                              {"hub": True})
+        for nm, k in (("retarded_local_clustering", i),
+                      ("advanced_local_clustering", N - 1 - i)):
+            got = np.asarray(getattr(g, nm)(), float)
+            m = k >= 2
+            if not np.allclose(got[m], 1.0):
+                j = int(np.flatnonzero(m & ~np.isclose(got, 1.0))[0])
+                ctx.violation(f"VisibilityGraph.{nm}",
+                              f"is {got[j]!r} at node {j} whose {int(k[j])} "
+                              "neighbours on that side are all linked "
+                              "(expected 1)", dict(key, node=j,
+                                                   got=float(got[j])),
+                              {"hub": True})
+
+
 def search(ctx):
+    hub_case(ctx)
     ctx.stats["rule"] = (
         "series: integer / plateau / monotone / collinear-with-dents / dyadic "
         "values, n = 2..12, timings unit / irregular integer / step 3 / step "
